@@ -54,13 +54,152 @@ let bar_line l =
 
 let status_line l = "ok " ^ string_of_int (int_of_n (decode_status (n_of_int (int_of_string (String.trim l)))))
 
+(* ---- scheduler: token stream parsing ---- *)
+exception Parse of string
+
+let toks_of_line l = ref (words l)
+
+let next ts = match !ts with [] -> raise (Parse "eof") | x :: r -> ts := r; x
+let peek_tok ts = match !ts with [] -> "" | x :: _ -> x
+let next_int ts = int_of_string (next ts)
+let expect ts s = let x = next ts in if x <> s then raise (Parse ("expected " ^ s ^ " got " ^ x))
+let rec times n f = if n <= 0 then [] else let x = f () in x :: times (n - 1) f
+
+let parse_graph ts =
+  expect ts "G";
+  let nb = next_int ts in
+  let nf = next_int ts in
+  let builds = times nb (fun () ->
+    expect ts "B";
+    let nins = next_int ts in
+    let ins = times nins (fun () -> nat_of_int (next_int ts)) in
+    let e = next_int ts in let i = next_int ts in let o = next_int ts in
+    let nouts = next_int ts in
+    let outs = times nouts (fun () -> nat_of_int (next_int ts)) in
+    let phony = next_int ts = 1 in
+    let p = next ts in
+    let pool = if p = "n" then None else Some (bytes_of_hex (String.sub p 1 (String.length p - 1))) in
+    { b_ins = ins; b_explicit = nat_of_int e; b_implicit = nat_of_int i; b_order_only = nat_of_int o;
+      b_outs = outs; b_phony = phony; b_pool = pool }) in
+  let files = times nf (fun () ->
+    expect ts "F";
+    let name = bytes_of_hex (next ts) in
+    let inp = next_int ts in
+    let nd = next_int ts in
+    let deps = times nd (fun () -> nat_of_int (next_int ts)) in
+    { f_name = name; f_input = (if inp < 0 then None else Some (nat_of_int inp)); f_dependents = deps }) in
+  expect ts "P";
+  let np = next_int ts in
+  let pools = times np (fun () -> let n = bytes_of_hex (next ts) in let d = next_int ts in (n, nat_of_int d)) in
+  expect ts "D";
+  let nd = next_int ts in
+  let defaults = times nd (fun () -> nat_of_int (next_int ts)) in
+  ({ g_builds = builds; g_files = files }, pools, defaults)
+
+let state_of_tok = function
+  | "U" -> Unknown | "W" -> Want | "R" -> Ready | "Q" -> Queued | "X" -> Running | "D" -> Done | "F" -> Failed
+  | s -> raise (Parse ("state " ^ s))
+let tok_of_state = function
+  | Unknown -> "U" | Want -> "W" | Ready -> "R" | Queued -> "Q" | Running -> "X" | Done -> "D" | Failed -> "F"
+
+let rec pos_of_int_z i = pos_of_int i
+let z_of_int i = if i = 0 then Z0 else if i > 0 then Zpos (pos_of_int i) else Zneg (pos_of_int (-i))
+let int_of_z = function Z0 -> 0 | Zpos p -> int_of_pos p | Zneg p -> - (int_of_pos p)
+
+let parse_event ts =
+  match next ts with
+  | "u" -> let l = times 6 (fun () -> z_of_int (next_int ts)) in
+    (match l with [a;b;c;d;e;f] -> EUpdate { k_want = a; k_ready = b; k_queued = c; k_running = d; k_done = e; k_failed = f }
+                | _ -> raise (Parse "u"))
+  | "p" -> EPopReady (nat_of_int (next_int ts))
+  | "v" -> let b = nat_of_int (next_int ts) in
+    let v = (match next ts with "c" -> VClean | "d" -> VDirty | _ -> VError) in EVerdict (b, v)
+  | "s" -> let b = nat_of_int (next_int ts) in let p = state_of_tok (next ts) in let n = state_of_tok (next ts) in ESet (b, p, n)
+  | "st" -> EStart (nat_of_int (next_int ts))
+  | "q" -> EQuiesce (nat_of_int (next_int ts))
+  | "f" -> let b = nat_of_int (next_int ts) in
+    let t = (match next_int ts with 0 -> TSuccess | 2 -> TInterrupted | _ -> TFailure) in EFinish (b, t)
+  | "r" -> ERecord (nat_of_int (next_int ts))
+  | "ret" -> (match next ts with "1" -> EReturn (Some true) | "0" -> EReturn (Some false) | _ -> EReturn None)
+  | s -> raise (Parse ("event " ^ s))
+
+let show_ctl = function
+  | CIdle -> "idle" | CChecking _ -> "checking" | CVerdict _ -> "verdict" | CStarting _ -> "starting"
+  | CFinished _ -> "finished"
+  | CReturned (Some true) -> "ret1" | CReturned (Some false) -> "ret0" | CReturned None -> "rete"
+
+let show_log log = String.concat "," (List.map (fun (b, s) -> string_of_int (int_of_nat b) ^ tok_of_state s) log)
+
+(* PHASE G.. C par adopt fl S reuse T n ids W n (b st)* E n events  PHASE ... *)
+let inv_line l =
+  try
+    let ts = toks_of_line l in
+    let prev : bstates option ref = ref None in
+    let out = ref [] in
+    while peek_tok ts = "PHASE" do
+      expect ts "PHASE";
+      let (g, pools, defaults) = parse_graph ts in
+      expect ts "C";
+      let par = next_int ts in let adopt = next_int ts = 1 in let fl = next_int ts in
+      expect ts "S";
+      let reuse = next_int ts = 1 in
+      let tk = next ts in
+      let nt = next_int ts in
+      let targets = if tk = "T" then times nt (fun () -> nat_of_int (next_int ts)) else [] in
+      let names = if tk = "TN" then times nt (fun () -> bytes_of_hex (next ts)) else [] in
+      let manifest = if tk = "TN" then (let m = next_int ts in if m < 0 then None else Some (nat_of_int m)) else None in
+      expect ts "W";
+      let nw = next_int ts in
+      let wl = times nw (fun () -> let b = nat_of_int (next_int ts) in let s = state_of_tok (next ts) in (b, s)) in
+      expect ts "E";
+      let ne = next_int ts in
+      let evs = times ne (fun () -> parse_event ts) in
+      let cf = { cf_graph = g; cf_parallelism = nat_of_int par; cf_adopt = adopt } in
+      let s0 = (match (reuse, !prev) with
+                | (true, Some s) -> s
+                | _ -> bs_new (nat_of_int (List.length g.g_builds)) pools) in
+      let flo = if fl < 0 then None else Some (nat_of_int fl) in
+      let r = if tk = "TN" then run_phase_main cf s0 flo defaults manifest names wl evs
+              else run_phase cf s0 flo targets wl evs in
+      (match r with
+       | PWantErr m -> out := ("wanterr " ^ hex_of_bytes m) :: !out; prev := None
+       | PWantMismatch log -> out := ("wantmismatch " ^ show_log log) :: !out; prev := None
+       | PReject i -> out := ("reject " ^ string_of_int (int_of_nat i)) :: !out; prev := None
+       | PBroken _ -> out := "broken" :: !out; prev := None
+       | PAccept r ->
+         prev := Some r.rs_bs;
+         out := (Printf.sprintf "accept %s run=%d failed=%d pending=%d states=%s"
+                   (show_ctl r.rs_ctl) (int_of_nat r.rs_tasks_run) (int_of_nat r.rs_failed)
+                   (int_of_z r.rs_bs.bs_pending)
+                   (String.concat "" (List.map tok_of_state r.rs_bs.bs_states))) :: !out)
+    done;
+    String.concat " | " (List.rev !out)
+  with Parse m -> "parse-error " ^ m | Failure m -> "parse-error " ^ m
+
+(* select: G.. M manifest A adopt N n names *)
+let select_line l =
+  try
+    let ts = toks_of_line l in
+    let (g, _, defaults) = parse_graph ts in
+    expect ts "M";
+    let m = next_int ts in
+    expect ts "A";
+    let adopt = next_int ts = 1 in
+    expect ts "N";
+    let n = next_int ts in
+    let names = times n (fun () -> bytes_of_hex (next ts)) in
+    show_outcome (fun ids -> String.concat "," (List.map (fun x -> string_of_int (int_of_nat x)) ids))
+      (select_targets g defaults (if m < 0 then None else Some (nat_of_int m)) adopt names)
+  with Parse m -> "parse-error " ^ m | Failure m -> "parse-error " ^ m
+
 let suites : (string * (string -> string)) list =
   [ ("canon_impl", canon_impl_line); ("canon", canon_line); ("canon_sem", sem_line);
     ("depfile", depfile_line true); ("depfile_pinned", depfile_line false);
     ("showincludes", showinc_line true); ("showincludes_pinned", showinc_line false);
     ("lastline", lastline_line);
     ("taskmsg", taskmsg_line true); ("taskmsg_pinned", taskmsg_line false);
-    ("truncate", truncate_line); ("bar", bar_line); ("status", status_line) ]
+    ("truncate", truncate_line); ("bar", bar_line); ("status", status_line);
+    ("inv", inv_line); ("select", select_line) ]
 
 let () =
   let suite = if Array.length Sys.argv > 1 then Sys.argv.(1) else "" in
